@@ -167,6 +167,41 @@ NMV_OP("c01_static_cl") {
 #endif
 
 #if NMV_PART == 4
+// everything known at compile time: offset, shape and strides are integral constants (the library then computes the result inside the type resolver)
+template <size_t... Ns>
+static void run_all_ct(W& w) {
+    using S = ct_shape<Ns...>;
+    S shape{};
+    auto strides = ix::compute_strides(shape);
+    constexpr size_t total = (Ns * ...);
+    w.key("shape_seen").beg_arr(); for (auto e : to_vec(shape)) w.num(e); w.end_arr();
+    w.key("strides_constant").boolean(meta::is_constant_index_array_v<decltype(strides)>);
+    w.key("unravel").beg_arr();
+    meta::template_for<total>([&](auto k) {
+        constexpr size_t K = decltype(k)::value;
+        auto idx = ix::compute_indices(meta::ct_v<K>, shape);
+        auto idx2 = ix::compute_indices(meta::ct_v<K>, shape, strides);
+        auto back = ix::compute_offset(idx, strides);
+        w.beg_arr();
+        w.beg_arr(); for (auto e : to_vec(idx)) w.num(e); w.end_arr();
+        w.num((unsigned long long)back);
+        w.beg_arr(); for (auto e : to_vec(idx2)) w.num(e); w.end_arr();
+        w.boolean(meta::is_constant_index_array_v<decltype(idx)> && meta::is_constant_index_array_v<decltype(idx2)>);
+        w.end_arr();
+    });
+    w.end_arr();
+}
+#define NMV_ALLCT_TABLE(X) X(7) X(2,3) X(3,2) X(1,3) X(4,5) X(2,3,2) X(3,2,1) X(2,1,3,2) X(2,3,4)
+NMV_OP("c01_all_ct") {
+    auto key = A["key"].ivec();
+    std::string k; for (auto e : key) { k += std::to_string(e); k += ","; }
+#define X(...) { std::string t; for (long long e : std::vector<long long>{__VA_ARGS__}) { t += std::to_string(e); t += ","; } \
+        if (t == k) { return run_all_ct<__VA_ARGS__>(w); } }
+    NMV_ALLCT_TABLE(X)
+#undef X
+    throw std::runtime_error("shape not in the all-ct table");
+}
+
 NMV_OP("c01_static_table") {
     w.key("table").beg_arr();
 #define X(...) { w.beg_arr(); for (long long e : std::vector<long long>{__VA_ARGS__}) w.num(e); w.end_arr(); }
